@@ -5,6 +5,7 @@ import numpy as np
 from ..core import fb, fbs, cbs, unfb, close, allclose, fingerprint, safe_oracle
 from ..synth import SynthModel, random_rho
 from .. import eleccommon as ec
+from .. import runcommon as rc
 
 
 def _model(spec):
@@ -171,6 +172,8 @@ def run(ctx):
             ctx.corr_mismatch("step.generator", spec, "W differs from both variants")
         if not same(rm, after["rho"]):
             ctx.corr_mismatch("step.expstep", spec, "rho' differs")
+    # whole hop-free runs against the composed step of the model (MudModel/Step.lean)
+    rc.run_correspondence(ctx, ctx.budget(6, 150), hops=False, label="shrun_hopfree")
     for i in range(ctx.budget(12, 150)):
         N, n = int(rng.integers(2, 4)), int(rng.integers(1, 3))
         spec = dict(N=N, n=n, model_seed=int(rng.integers(1, 10 ** 6)), x0=list(rng.normal(size=n) * 0.5), p0=list(rng.normal(size=n) * 10 + 5),
